@@ -1540,7 +1540,7 @@ class HealSparseMap(object):
                 if bad_map:
                     raise ValueError('weights dimensions must be the same as this map.')
 
-                weight_values = weights._sparse_map
+                weight_values = weights._sparse_map.copy()
                 # Set to zero weight those pixels that are not observed
                 # This is valid for all types of maps because they share the same valid_pixels.
                 weight_values[weight_values == weights._sentinel] = 0.0
